@@ -199,6 +199,7 @@ class Interp:
         self.js_full = self.uni.full(self.layout.jobstate)
         self.sym_info = {}
         self.errvar_cache = {}
+        self.edges = {}
         State.interp = self
 
     # ---- frames ----------------------------------------------------------------------
@@ -220,8 +221,7 @@ class Interp:
             sym = root[1]
             roles = root[2] if len(root) > 2 else frozenset()
             st = None
-            for r in roles:
-                tag = r[0] if isinstance(r, tuple) else r
+            for tag in self.role_tags(roles):
                 if tag in self.cfg.cell_init:
                     st = self.cfg.cell_init[tag]
             constraint = root[3] if len(root) > 3 else None
@@ -258,6 +258,23 @@ class Interp:
         if root[0] == "strparam":
             return string([("param", root[1], root[2])])
         return TOP
+
+    def role_tags(self, roles, depth=0):
+        """partition tags of a key: the plain role names and, for neighbour keys, the path
+        'nbr:<dir>:<tag of the parent key>' (e.g. nbr:Outgoing:nbr:Incoming:sigtarget)"""
+        out = set()
+        for r in roles:
+            if isinstance(r, tuple):
+                out.add(r[0])
+                if r[0] == "nbr" and depth < 4:
+                    pinfo = self.sym_info.get(r[1])
+                    if pinfo is not None:
+                        for pt in self.role_tags(pinfo[0], depth + 1):
+                            if pt not in ("via", "was", "nbr"):
+                                out.add("nbr:%s:%s" % (r[2], pt))
+            else:
+                out.add(r)
+        return out
 
     def load_root(self, state, root):
         if root[0] == "local":
@@ -680,7 +697,9 @@ class Interp:
                 raise Imprecision("no fixpoint in %s" % body.name)
             st = ins[b].copy()
             outs = self.exec_block(st, frame, b)
+            es = self.edges.setdefault(frame.fid, set())
             for succ, s2 in outs:
+                es.add((b, succ))
                 if succ == "return":
                     exit_state = join_state(exit_state, s2)
                     continue
